@@ -16,9 +16,9 @@ class C15(Check):
     EXHAUSTIVE = True
     RULE = ('the WHOLE finite SSH configuration table - hostkey_verify 2 x known_hosts {absent, under host, under [host]:port, different key} x '
             'pinned key {absent, matching, different} x callback verdict 2 x profile {default, junos, iosxe, iosxr, csr} x credentials '
-            '{right password, wrong password, key file then password (fail, ok), all fail, none} x subsystem acceptance - run through the REAL '
+            '{right password, wrong password, key file then password (fail, ok), all fail, none} x subsystem acceptance, and a slice of it again with an OpenSSH configuration file (StrictHostKeyChecking no / accept-new / off, ...) - run through the REAL '
             'manager.connect_ssh / SSHSession.connect / _auth with real paramiko keys and a real known_hosts file against a recording '
-            'transport; plus real TLS handshakes on loopback: right CA, wrong CA, wrong host name, host-name check off. '
+            'transport; plus real TLS handshakes on loopback: right CA, wrong CA, wrong host name, peer named by an IPv4 / IPv6 literal, a certificate of the right CA issued to another device, host-name check off. '
             'Non-trivial = verification on or authentication attempted; distinct by configuration.')
     TRUST = ['paramiko key comparison / HostKeys.check and OpenSSL certificate validation are the environment (exercised for real, not modelled)']
 
@@ -30,6 +30,17 @@ class C15(Check):
             for subs in ([True], [False]) if (profile == 'default' and auths == [True]) else ([True],):
                 out.append({'kind': 'ssh', 'verify': verify, 'known': known, 'pinned': pinned, 'cb': cb, 'profile': profile, 'negotiates': True,
                             'auths': auths, 'subs': subs})
+        # the same decisions with an OpenSSH configuration file given (ssh_config=...), whose options must not weaken the verification
+        CFG = [['StrictHostKeyChecking no'], ['StrictHostKeyChecking accept-new'], ['StrictHostKeyChecking off', 'CheckHostIP no'],
+               ['StrictHostKeyChecking yes'], ['UpdateHostKeys yes', 'HashKnownHosts yes'], ['VerifyHostKeyDNS yes', 'StrictHostKeyChecking ask'],
+               ['NoHostAuthenticationForLocalhost yes'], ['User u', 'ServerAliveInterval 10']]
+        k = 0
+        for known, pinned, cb, auths in itertools.product('ahpd', 'amd', (True, False), ([True], [False])):
+            for rep in range(2):
+                cfg = CFG[k % len(CFG)]
+                k += 1
+                out.append({'kind': 'ssh', 'verify': True, 'known': known, 'pinned': pinned, 'cb': cb, 'profile': 'default', 'negotiates': True,
+                            'auths': auths, 'subs': [True], 'sshcfg': cfg, 'sshcfg_host': ['*', 'device.example', 'device.*'][k % 3]})
         out.append({'kind': 'ssh', 'verify': True, 'known': 'h', 'pinned': 'a', 'cb': False, 'profile': 'default', 'negotiates': False,
                     'auths': [True], 'subs': [True]})
         out.append({'kind': 'ssh', 'verify': True, 'known': 'a', 'pinned': 'a', 'cb': True, 'profile': 'nexus', 'negotiates': True,
@@ -56,7 +67,9 @@ class C15(Check):
                                  'profile': 'default', 'negotiates': True, 'auths': rng.choice([[True], [True], [False]]), 'subs': [True],
                                  'host': host, 'port': port, 'server_key': sk})
             out.append({'kind': 'sshseq', 'entries': entries, 'connects': connects})
-        for t in ('right-ca', 'wrong-ca', 'wrong-hostname', 'wrong-hostname-unchecked', 'no-ca-but-system-store'):
+        for t in ('right-ca', 'wrong-ca', 'wrong-hostname', 'wrong-hostname-unchecked', 'no-ca-but-system-store',
+                  # the peer is named by an IP literal (as `host`, or as `server_hostname`): the certificate must match that address
+                  'other-device-cert', 'other-device-cert-unchecked', 'wrong-ip', 'wrong-ip6', 'wrong-ip-unchecked'):
             out.append({'kind': 'tls', 'trust': t})
         # the documented protocol constants x host-name checking on/off, against a server whose certificate chains to ANOTHER CA
         for proto in ('PROTOCOL_TLS_CLIENT', 'PROTOCOL_TLS', 'PROTOCOL_TLSv1_2'):
@@ -88,6 +101,12 @@ class C15(Check):
         if case['trust'].startswith('wrong-hostname'):
             sc['server_hostname'] = 'not-the-server.example'
             sc['check_hostname'] = case['trust'] == 'wrong-hostname'
+        if case['trust'].startswith('wrong-ip'):
+            sc['server_hostname'] = '2001:db8::1' if 'ip6' in case['trust'] else '10.1.2.3'
+            sc['check_hostname'] = not case['trust'].endswith('unchecked')
+        if case['trust'].startswith('other-device-cert'):
+            sc['other_device_cert'] = True      # chains to the right CA, but was issued to another name and address; host = '127.0.0.1'
+            sc['check_hostname'] = not case['trust'].endswith('unchecked')
         srv = e2e.make_server(sc, None)
         try:
             try:
@@ -158,7 +177,7 @@ class C15(Check):
             return None
         if case['kind'] == 'tls':
             t = case['trust']
-            if t in ('right-ca', 'wrong-hostname-unchecked'):
+            if t in ('right-ca', 'wrong-hostname-unchecked', 'wrong-ip-unchecked', 'other-device-cert-unchecked'):
                 if io['result'] != 'connected':
                     return ('C15:tls-valid-rejected:' + t, 'connect with a valid chain gave %s' % io['result'])
                 return None
